@@ -24,6 +24,7 @@ type Opts struct {
 	Samples   int     // sample paths written to the evidence
 	Verbose   bool
 	Seed      int64
+	Trace     bool
 }
 
 // Sample is one terminated path written out for the evidence / for native validation.
